@@ -349,6 +349,95 @@ func c18KeepCheck(l *explore.Local, _ struct{}, c c18Keep) *explore.Fail {
 	return nil
 }
 
+// c18Wave: wave RAM is filled (channel 3 off), channel 3 plays at frequency F for K machine cycles — every phase of
+// its period — and is stopped (sound powered off, its DAC switched off, or its length counter expiring); sound is
+// powered on again where needed and channel 3 is triggered from idle, played for J cycles and stopped through NR30.
+// Wave RAM, read with channel 3 off, must still hold the bytes written: no write went to FF30-FF3F and the channel
+// was never re-triggered while it played.
+type c18Wave struct {
+	F    int    `json:"f"`
+	K    int    `json:"k"`
+	Stop string `json:"stop"` // power | dac | len
+	J    int    `json:"j"`
+}
+
+func c18WaveCheck(l *explore.Local, _ struct{}, c c18Wave) *explore.Fail {
+	p := newAPUPair()
+	ctx := fmt.Sprintf("channel 3 at f=%03x played %d cycles, stopped by %s, triggered again from idle for %d cycles", c.F, c.K, c.Stop, c.J)
+	p.write(0xff26, 0x00)
+	p.write(0xff26, 0x80)
+	p.write(0xff1a, 0x00)
+	for i := 0; i < 16; i++ {
+		p.write(0xff30+uint16(i), uint8(0x10*i+15-i)^0x5a)
+	}
+	wave := func(when string) *explore.Fail {
+		for i := 0; i < 16; i++ {
+			want, mask := p.mod.Read(0xff30 + uint16(i))
+			if mask != 0xff {
+				return explore.Failf("harness: the model does not determine wave RAM here", "%s (%s): byte %d", ctx, when, i)
+			}
+			if got := p.m.Map.Read(0xff30 + uint16(i)); got != want {
+				return explore.Failf("wave RAM does not keep its contents", "%s: %s FF3%X reads %02x, written %02x", ctx, when, i, got, want)
+			}
+		}
+		return nil
+	}
+	if f := wave("before playing"); f != nil {
+		return f
+	}
+	p.write(0xff1a, 0x80)
+	p.write(0xff1c, 0x20)
+	p.write(0xff1d, uint8(c.F))
+	ctl := uint8(0x80 | c.F>>8)
+	p.write(0xff1b, 0x00)
+	if c.Stop == "len" {
+		// length 1: expires at the first length clock; K then counts on from the expiry
+		p.write(0xff1b, 0xff)
+		ctl |= 0x40
+	}
+	p.write(0xff1e, ctl)
+	if c.Stop == "len" {
+		for i := 0; i < 3*4096 && p.mod.Ch[2].On; i++ {
+			if f := p.tick(1, ctx); f != nil {
+				return f
+			}
+		}
+		if p.mod.Ch[2].On {
+			return explore.Failf("harness: the length counter did not expire", "%s", ctx)
+		}
+	}
+	if f := p.tick(c.K, ctx); f != nil {
+		return f
+	}
+	switch c.Stop {
+	case "power":
+		p.write(0xff26, 0x00)
+		if f := p.tick(3, ctx); f != nil {
+			return f
+		}
+		p.write(0xff26, 0x80)
+	case "dac":
+		p.write(0xff1a, 0x00)
+	}
+	if f := wave("after the stop,"); f != nil {
+		return f
+	}
+	p.write(0xff1a, 0x80)
+	p.write(0xff1d, uint8(c.F))
+	p.write(0xff1e, 0x80|uint8(c.F>>8))
+	if f := p.tick(c.J, ctx); f != nil {
+		return f
+	}
+	p.write(0xff1a, 0x00)
+	if f := wave("after the trigger from idle,"); f != nil {
+		return f
+	}
+	l.Eval(1)
+	l.Trans(p.cycles)
+	l.Outcome(uint64(c.K)<<16 | uint64(c.F))
+	return nil
+}
+
 func init() {
 	vals := []uint8{0x00, 0xff, 0x55, 0xaa, 0x80, 0x7f, 0x08, 0xf7}
 	var a18 []apuEv
@@ -378,7 +467,7 @@ func init() {
 
 	register("C18", "model_checking", func(c *Ctx) {
 		if c.R != nil {
-			c.R.Rule = "(a) every register NR10-NR51 x all 256 values x power state {on, off, off-then-on}, each preceded by a write of the complementary value: all 20 registers, NR52 and three wave-RAM bytes are read back and compared with the reference (last written value OR mask while on; masks while off; writes ignored while off except NR52 and the length registers; wave RAM preserved); (c) every register written once (all 256 values for the sweep and envelope registers) and then left alone for 327,680 cycles with the channels idle or playing: the read-back never changes; (b) every sequence up to the depth bound over {write r<-v for all 20 registers + 3 wave-RAM bytes x 8 values (no trigger bits), NR52<-00, NR52<-80, 1 cycle, 2,048 cycles, 4,096 cycles}, all registers compared after every event and NR52 after every cycle"
+			c.R.Rule = "(a) every register NR10-NR51 x all 256 values x power state {on, off, off-then-on}, each preceded by a write of the complementary value: all 20 registers, NR52 and three wave-RAM bytes are read back and compared with the reference (last written value OR mask while on; masks while off; writes ignored while off except NR52 and the length registers; wave RAM preserved); (c) every register written once (all 256 values for the sweep and envelope registers) and then left alone for 327,680 cycles with the channels idle or playing: the read-back never changes; (b) every sequence up to the depth bound over {write r<-v for all 20 registers + 3 wave-RAM bytes x 8 values (no trigger bits), NR52<-00, NR52<-80, 1 cycle, 2,048 cycles, 4,096 cycles}, all registers compared after every event and NR52 after every cycle; (w) wave RAM across stop and restart: channel 3 played for every number of cycles of four wave periods at 7 frequencies, stopped by power-off / DAC off / length expiry, triggered again from idle and stopped: FF30-FF3F still read the bytes written"
 			c.R.Assumptions = []string{"trigger bits are excluded from the write values of (b); status bits under triggers are C19's", "NR52's low nibble is predicted by the shared length/status model"}
 		}
 		explore.Product(c.R, "readback-all-values", explore.PartOpt{Bound: "single write per observation", Domain: "20 registers x 256 values x 3 power states"},
@@ -401,6 +490,24 @@ func init() {
 					}
 				}
 			}, func() struct{} { return struct{}{} }, c18KeepCheck)
+		explore.Product(c.R, "wave-ram-across-stop-and-restart", explore.PartOpt{Bound: "played for every K in 1..P+2 machine cycles (P = 4 wave periods, at most 300), then stopped and triggered again from idle for J in {1, 3}", Domain: "f in {7FF, 7FE, 7FC, 7F0, 7C0, 700, 400} x stop by power-off / DAC off / length expiry"},
+			func(yield func(c18Wave) bool) {
+				for _, f := range []int{0x7ff, 0x7fe, 0x7fc, 0x7f0, 0x7c0, 0x700, 0x400} {
+					n := 4*(2048-f)/2 + 2
+					if n > 300 {
+						n = 300
+					}
+					for _, stop := range []string{"power", "dac", "len"} {
+						for k := 1; k <= n; k++ {
+							for _, j := range []int{1, 3} {
+								if !yield(c18Wave{F: f, K: k, Stop: stop, J: j}) {
+									return
+								}
+							}
+						}
+					}
+				}
+			}, func() struct{} { return struct{}{} }, c18WaveCheck)
 		depth := 3
 		explore.Product(c.R, "write-power-time-sequences", explore.PartOpt{Bound: fmt.Sprintf("every sequence up to depth %d over %d events (thorough: additionally depth 4 over the %d events with the value set {00,FF,7F,55,08})", depth, len(a18), len(apuAlphabets["c18r"])), Domain: "from power-on; from a powered-off start; from the second half of a frame-sequencer period (plain; all length counters at 1; all length counters at 1 and all channels playing)"},
 			func(yield func(apuCase) bool) {
